@@ -327,9 +327,20 @@ static int send_signal(int si, int target_loop, int to_main)
 		r = kill(getpid(), signums[si]);
 		atomic_fetch_add(&c_pd, 1);
 	}
-	if (r == 0)
+	if (r == 0) {
 		while (atomic_load(&deliv[si]) == before && guard++ < 50000000)
 			sched_yield();
+		/* not delivered yet (the receiving thread may simply not have been given a processor): the sender does not go on - the
+		 * disposition could be put back to the default with this signal still on its way - but waits at leisure; a delivery that
+		 * never comes ends at the wall-clock guard of the case, which is inconclusive */
+		if (atomic_load(&deliv[si]) == before) {
+			mon_printf("NOTE signal %d sent by a sender thread was not delivered within 50000000 yields: waiting on\n", signums[si]);
+			while (atomic_load(&deliv[si]) == before) {
+				struct timespec ts = { 0, 1000000 };
+				nanosleep(&ts, NULL);
+			}
+		}
+	}
 	__real_pthread_mutex_unlock(&sendmtx[si]);
 	return 1;
 }
